@@ -43,6 +43,24 @@ ALL_CODONS = ["".join(c) for c in itertools.product(NUC, repeat=3)]
 CODE = dict(zip(ALL_CODONS, STANDARD_AA))
 SENSE = [c for c in ALL_CODONS if CODE[c] != "*"]
 
+import contextlib
+
+
+@contextlib.contextmanager
+def genetic_code(aa_string):
+    """temporarily make the oracle's codon predicates / state space those of another NCBI table (64 letters, TCAG order)"""
+    global CODE, SENSE
+    old = CODE, SENSE
+    CODE = dict(zip(ALL_CODONS, aa_string))
+    SENSE = [c for c in ALL_CODONS if CODE[c] != "*"]
+    _RCACHE.clear()  # the oracle's own mask memo is keyed by state space and terms only
+    try:
+        yield
+    finally:
+        CODE, SENSE = old
+        _RCACHE.clear()
+
+
 IUPAC_DNA = {
     "A": "A", "C": "C", "G": "G", "T": "T",
     "R": "AG", "Y": "CT", "W": "AT", "S": "CG", "K": "GT", "M": "AC",
